@@ -4,7 +4,7 @@ open Driver_lib
 
 type 'a runres = ROk of 'a | RErr of int * err
 
-let handle (toks : string list) : string =
+let handle (toks : String.t list) : String.t =
   match toks with
   | ["crc16"; h] -> hex_of_bytes (crc16 (bytes_of_hex h))
   | ["crc32c"; h; o] -> hex_of_bytes (crc32c (bytes_of_hex h) (o = "big"))
@@ -200,6 +200,18 @@ let handle (toks : string list) : string =
      | Ok ks ->
        let g i = ks.(int_of_string i) in
        (match check_account_hashes (g bp) (g sp) (g sa) (g cl) (bytes_of_hex h) with Ok _ -> "ok" | Err e -> "err " ^ err_name e))
+  | "tlb_run" :: ty :: rest ->
+    (* tlb_run Type(args) <dag>: run the traced decision tree of Type on the root cell *)
+    let (name, args) = (match String.index_opt ty '(' with
+        | None -> (ty, [])
+        | Some i -> (String.sub ty 0 i,
+                     List.map (fun a -> z_of_int (int_of_string a))
+                       (List.filter (fun x -> x <> "") (String.split_on_char ',' (String.sub ty (i + 1) (String.length ty - i - 2)))))) in
+    let (ns, _) = parse_dag rest in
+    let trees = tree_of_dag ns in
+    (match run_type impl_table (nat_of_int 400) (coq_of_ocaml name) args trees.(Array.length trees - 1) with
+     | Err e -> "err " ^ err_name e
+     | Ok (v, s) -> Printf.sprintf "ok %s rest=%d/%d" (show_pv v) (List.length s.s_bits) (List.length s.s_refs))
   | "senc" :: rest ->
     let (ns, ops) = parse_dag rest in
     let trees = tree_of_dag ns in
